@@ -102,6 +102,13 @@ theorem search_without_recheck_leaves_handle :
 example : (Wv.Close.run true true [.openFile, .find 1, .close, .openFile, .find 1, .close, .close, .find 1]).closePc = 3 ∧
     (Wv.Close.run true true [.openFile, .find 1, .close, .openFile, .find 1, .close, .close, .find 1]).finds = [] := by decide
 
+/-- THE SOURCE HAS THE SHAPE THE CLOSE MODEL ASSUMES (facts re-extracted from ffi/storm-ffi/src/lib.rs on every run):
+    SFileCloseArchive empties the archive table first, then the file handles, then the search handles; SFileFindFirstFile
+    looks the archive up again after storing its handle; SFileOpenFileEx keeps the archive table locked until its handle is
+    stored (so it is one atomic step of the model) -/
+theorem close_protocol_as_modelled :
+    Gen.closeSections = [1, 2, 3] ∧ Gen.findRechecks = true ∧ Gen.openFileAtomic = true := by decide
+
 /-- LOCK ORDER: the acquisition graph extracted from the C API's current source (regenerated every run) has no
     cycle — checked as "edges respect a strict ranking of the four global mutexes" -/
 theorem lock_graph_acyclic : Gen.lockEdgesAcyclic = true := by decide
